@@ -55,3 +55,4 @@ CFG = dict(
 
 CFG["rule"] += " C20L also with a WebSocket client (testpb.ChatRoom's WEBSOCKET /v1/{name=rooms/*} under every mount prefix and its near misses: handshake status and the echoed frame)."
 CFG["rule"] += ' Option T: TLSCredsOption with a non-nil *tls.Config (how the listener is wrapped, not what the handler serves) -- in the fixed configurations beside mounts and extra handlers, and in front of one random configuration in five.'
+CFG["rule"] += ' Marker L (always last, not an option): the server is built on a mux that has nothing yet and the services are registered afterwards -- one random configuration in six and three fixed ones.'
